@@ -226,6 +226,9 @@ pub fn build(id: &str, tier: &str, seed: u64, threads: usize) -> Option<Plan> {
                 fam_rfold(b, &[1, 2, 3, 4, 5, 6, 7], &mut cases);
                 if b.spec.b == 8 {
                     fam_timers(b, true, &mut cases);
+                    if b.spec.w <= 3 {
+                        fam_timeouts(b, false, &mut cases);
+                    }
                 }
                 fam_random(b, &mut rng, if q { 6 } else { 500 }, 5, &mut cases);
                 if !q && b.spec.w <= 4 && b.spec.b == 8 && b.spec.nblocks() <= 2 * b.spec.w as u64 + 1 {
@@ -268,6 +271,9 @@ pub fn build(id: &str, tier: &str, seed: u64, threads: usize) -> Option<Plan> {
                 }
                 fam_single(b, false, 1, &mut cases);
                 fam_strays(b, &mut cases);
+                if b.spec.b == 8 && b.spec.w <= 3 && (b.spec.nblocks() <= 4 || !q) {
+                    fam_timeouts(b, true, &mut cases);
+                }
                 if b.spec.nblocks() <= 4 || !q {
                     fam_blackhole(b, &mut cases);
                 }
